@@ -526,7 +526,8 @@ def _collect_update_commands(
                     history = state.manager[prop.key].impl.get_history(
                         state, state_dict, attributes.PASSIVE_NO_INITIALIZE
                     )
-                    if history.added:
+                    # "del obj.attr" has history.deleted only
+                    if history.added or history.deleted:
                         break
                 else:
                     # no net change, break
